@@ -280,7 +280,8 @@ class TupleSpec:
         for (fn, fs), v in zip(self.fields, items):
             if isinstance(fs, tuple) and fs[0] == 'opt':
                 if v is NONE:
-                    args += [BoolVal(False), fresh('none_' + fn, fs[1])]
+                    # canonical filler so that two encodings of None are the same term
+                    args += [BoolVal(False), z3.Const('NONE_%s' % fs[1], fs[1])]
                 else:
                     args += [BoolVal(True), coerce(v, fs[1])]
             else:
